@@ -574,7 +574,7 @@ Definition par_parse (g : cfg) (st : state) (pusher : pystr) (body : params) (w 
   end.
 
 Inductive pushres := PUrn (expires_in : Z) | PStoredExc (tag : N) | PExc (tag : N) | PNone | PUnmodelled.
-(* process_request: AuthorizationRequest(**request).verify() = strict merge again; store under the urn *)
+(* process_request: AuthorizationRequest(request).verify() = strict merge again; store under the urn *)
 Definition par_process (g : cfg) (st : state) (r : req) (w : option wobj) (urn : pystr) : state * pushres :=
   let stored :=
     match assoc k_request (r_params r) with
